@@ -414,6 +414,7 @@ def check_write_image(ctx, tu, f):
                  and 'char' not in p['ct'].split('*')[0].replace('unsigned char', '')]
     reads, writes, fwrites, allocs = [], [], [], []
     dyn_stack = []          # alloca() blocks: released only when the function returns
+    tile_gap = []           # tile loops that stop before the tiles cover the row
     try:
         def walk(n, stack):
             k = n.get('kind')
@@ -511,6 +512,85 @@ def check_write_image(ctx, tu, f):
                 return
             if k == 'CompoundAssignOperator' and isinstance(img.locals.get(tu.ref_decl(tu.kids(n)[0])), tuple):
                 return      # pointer bump, accounted for by the enclosing loop
+            if k == 'WhileStmt':
+                # while (v < B) { ...; v += min(B - v, S); }  with v = 0 before: v takes the values 0, S, 2S, ... < B (every
+                # advance but the last is a full S, the last one lands on B), i.e. for (v = 0; v < B; v += S)
+                ks_ = [c for c in n.get('inner', ()) if isinstance(c, dict) and c.get('kind')]
+                if len(ks_) != 2:
+                    raise Undecided('while statement shape')
+                cond_, b = ks_
+                c0 = tu.strip(cond_)
+                vid = None
+                if c0 is not None and c0.get('kind') == 'BinaryOperator' and c0.get('opcode') in ('<', '>', '<=', '>='):
+                    cands_ = {y.get('referencedDecl', {}).get('id') for y in tu.walk(c0) if y.get('kind') == 'DeclRefExpr'}
+                    cands_ = [d_ for d_ in cands_ if d_ is not None and img.locals.get(d_) == Poly.const(0) and d_ not in img.loops
+                              and (tu.node(d_) or {}).get('kind') == 'VarDecl' and
+                              'const' not in (tu.node(d_) or {}).get('type', {}).get('qualType', '')]
+                    vid = cands_[0] if len(cands_) == 1 else None
+                if vid is None:
+                    raise Undecided('loop construct `WhileStmt` whose condition does not test a counter that is 0 before the loop')
+                vd_ = tu.node(vid)
+                if vd_ is None or vd_.get('kind') != 'VarDecl' or b.get('kind') != 'CompoundStmt':
+                    raise Undecided('loop construct `WhileStmt`: counter or body shape')
+                # the counter must still be 0 when the loop is reached: declared in the statement just before the loop
+                par_ = tu.par(n)
+                sibs = [c for c in par_.get('inner', ()) if isinstance(c, dict) and c.get('kind')] if par_ is not None else []
+                idx_ = [i_ for i_, c in enumerate(sibs) if c.get('id') == n.get('id')]
+                prev = sibs[idx_[0] - 1] if idx_ and idx_[0] > 0 else None
+                if prev is None or prev.get('kind') != 'DeclStmt' or not any(
+                        isinstance(c, dict) and c.get('id') == vid for c in prev.get('inner', ())):
+                    raise Undecided('loop construct `WhileStmt`: the counter is not declared directly before the loop')
+                name = vd_.get('name')
+                stmts_ = tu.kids(b)
+                writes_ = [y for y in tu.walk(b) if y.get('kind') in ('BinaryOperator', 'CompoundAssignOperator', 'UnaryOperator')
+                           and y.get('opcode') in ('=', '+=', '-=', '*=', '++', '--') and tu.ref_decl(tu.kids(y)[0]) == vid]
+                last = tu.strip(stmts_[-1]) if stmts_ else None
+                if len(writes_) != 1 or last is None or last.get('id') != writes_[0].get('id') or last.get('opcode') != '+=':
+                    raise Undecided('loop construct `WhileStmt`: the counter is not advanced exactly once, by `+=` as the last '
+                                    'statement of the body')
+                if any(y.get('kind') in ('BreakStmt', 'ContinueStmt', 'ReturnStmt', 'GotoStmt', 'CXXThrowExpr') for y in tu.walk(b)):
+                    raise Undecided('loop construct `WhileStmt` with an early exit')
+                if any(y.get('kind') == 'UnaryOperator' and y.get('opcode') == '&' and tu.ref_decl(tu.kids(y)[0]) == vid
+                       for y in tu.walk(b)):
+                    raise Undecided('loop construct `WhileStmt`: address of the counter taken')
+                img.loops[vid] = {'name': name, 'node': n, 'depth': len(stack), 'id': vid, 'inc_extra': [], 'step': None,
+                                  'bound': None, 'count': None}
+                atom = ('sym', name)
+                try:
+                    rel = img.ev().rel(cond_)
+                    co = rel[0][0].coeff(atom) if rel and len(rel) == 1 and rel[0][1] == '<=' else None
+                    if co is None or co[0] != Poly.const(1):
+                        raise Undecided('loop construct `WhileStmt`: condition is not `%s < bound`' % name)
+                    bound = -co[1] + 1
+                    img.loops[vid]['bound'] = bound
+                    for st_ in stmts_[:-1]:
+                        walk(st_, stack + [vid])
+                    amt = img.ev().ev(tu.kids(last)[1])
+                    mins_ = [a_ for a_ in (amt.atoms() if amt is not None else ()) if isinstance(a_, tuple) and a_[0] == 'min']
+                    S_ = None
+                    if amt is not None and len(mins_) == 1 and amt == Poly.atom(mins_[0]):
+                        pa, pb = img.mins[mins_[0]]
+                        for rest_, k_ in ((pa, pb), (pb, pa)):
+                            if k_.const_value() is not None and k_.const_value() >= 1 and rest_ == bound - Poly.atom(atom):
+                                S_ = k_.const_value()
+                            elif k_.const_value() is not None and k_.const_value() >= 1:
+                                # tiles are cut to fit below `total`, but the loop only starts one while v < total - d
+                                d_ = (rest_ + Poly.atom(atom) - bound).const_value()
+                                if d_ is not None and d_ >= 1:
+                                    tile_gap.append((n, name, show(rest_ + Poly.atom(atom)), show(bound), d_))
+                                    S_ = k_.const_value()
+                                    img.loops[vid]['bound'] = bound = rest_ + Poly.atom(atom)
+                    elif amt is not None and amt.const_value() is not None and amt.const_value() >= 1 and rel[0][1] == '<=':
+                        S_ = amt.const_value()           # plain counted loop
+                    if S_ is None:
+                        raise Undecided('loop construct `WhileStmt`: the counter advances by `%s`, not by min(bound - %s, constant)'
+                                        % (tu.show(tu.kids(last)[1]), name))
+                except Undecided:
+                    del img.loops[vid]
+                    raise
+                img.loops[vid]['step'] = S_
+                img.loops[vid]['count'] = bound if S_ == 1 else None
+                return
             if k in ('WhileStmt', 'DoStmt', 'CXXForRangeStmt', 'GotoStmt'):
                 raise Undecided('loop construct `%s`' % k)
             if k == 'CXXMemberCallExpr' and tu.sd(n).get('q', '').split('::')[-1] in ('resize', 'assign') and \
@@ -742,6 +822,11 @@ def check_write_image(ctx, tu, f):
         return
     loops = img.loops
     by_name = {l['name']: l for l in loops.values()}
+    for n_, name_, total_, cond_bound_, d_ in tile_gap:
+        ctx.violation(R, inst, 'the tile loop runs while `%s < %s` although its tiles are cut to cover `%s` items: it stops as soon as '
+                      'fewer than %d remain, so the last, partial tile of a row is never converted or written (e.g. a row of 1 '
+                      'pixel produces no bytes at all)' % (name_, cond_bound_, total_, d_ + 1), tu.loc(n_), key=keyb + 'tile-loop-stops-early')
+        good = False
     # ---- memory obtained with alloca() stays allocated until writeImage returns: executed inside a loop it piles up
     for vd_, pv_, st_ in dyn_stack:
         runs = [loops[v_] for v_ in st_ if v_ in loops]
